@@ -11,7 +11,14 @@ CharTab == <<" ", "!", "\"", "#", "$", "%", "&", "'", "(", ")", "*", "+", ",", "
              "`", "a", "b", "c", "d", "e", "f", "g", "h", "i", "j", "k", "l", "m", "n", "o",
              "p", "q", "r", "s", "t", "u", "v", "w", "x", "y", "z", "{", "|", "}", "~">>
 
-Chr(c) == IF c = 34 THEN "\\\"" ELSE IF c = 92 THEN "\\\\" ELSE CharTab[c - 31]
+HexTab == <<"0", "1", "2", "3", "4", "5", "6", "7", "8", "9", "a", "b", "c", "d", "e", "f">>
+Hex4(n) == HexTab[((n \div 4096) % 16) + 1] \o HexTab[((n \div 256) % 16) + 1] \o HexTab[((n \div 16) % 16) + 1] \o HexTab[(n % 16) + 1]
+\* printable ASCII as itself; everything else as \uXXXX (a surrogate pair above U+FFFF), so that the
+\* implementation sees the real character whatever the encoding of the tool chain
+Chr(c) == IF c = 34 THEN "\\\"" ELSE IF c = 92 THEN "\\\\"
+          ELSE IF c >= 32 /\ c <= 126 THEN CharTab[c - 31]
+          ELSE IF c < 65536 THEN "\\u" \o Hex4(c)
+          ELSE "\\u" \o Hex4(55296 + ((c - 65536) \div 1024)) \o "\\u" \o Hex4(56320 + ((c - 65536) % 1024))
 
 RECURSIVE CpsText(_)
 CpsText(cps) == IF cps = <<>> THEN "" ELSE Chr(Head(cps)) \o CpsText(Tail(cps))
